@@ -728,27 +728,13 @@ func checkComparator(c *Ctx, rule string) {
 	if fn == nil {
 		return
 	}
-	var sortCall *Call
-	for _, cl := range Calls(fn) {
-		if cl.Name == "sort.Slice" || cl.Name == "sort.SliceStable" || cl.Name == "slices.SortFunc" || cl.Name == "sort.Sort" {
-			sortCall = cl
-		}
-	}
-	if sortCall == nil {
+	sortAt, _, less, sortName := findSliceSort(fn)
+	if sortAt == nil {
 		c.Violate(rule, "entity/dag.read:expected:sort", w.FnPos(fn), "no sort of the operation packs found")
 		return
 	}
-	args := sortCall.Args()
-	var less *ssa.Function
-	if len(args) == 2 {
-		if mc, ok := args[1].(*ssa.MakeClosure); ok {
-			less = mc.Fn.(*ssa.Function)
-		} else if f, ok := args[1].(*ssa.Function); ok {
-			less = f
-		}
-	}
-	pos := w.InstrPos(sortCall.Instr)
-	if less == nil || sortCall.Name != "sort.Slice" && sortCall.Name != "sort.SliceStable" || len(less.Params) != 2 {
+	pos := w.InstrPos(sortAt)
+	if less == nil || sortName != "sort.Slice" && sortName != "sort.SliceStable" || len(less.Params) != 2 {
 		c.Undecided(rule, "entity/dag.read:comparator", pos, "sort idiom not recognised (expected sort.Slice with a func(i, j int) bool literal)")
 		return
 	}
@@ -758,7 +744,7 @@ func checkComparator(c *Ctx, rule string) {
 	undec := ""
 	for o1 := -1; o1 <= 1; o1++ {
 		for o2 := -1; o2 <= 1; o2++ {
-			r, why := interpretLess(less, map[string]int{"EditTime": o1, "Id": o2}, keys)
+			r, why := interpretLess(less, map[string]int{"EditTime": o1, "Id": o2}, keys, nil)
 			c.Sites++
 			if r < 0 {
 				undec = why
@@ -799,7 +785,7 @@ func ordStr(o int) string { return map[int]string{-1: "a<b", 0: "a==b", 1: "a>b"
 
 // interpretLess symbolically runs a less(i, j) closure. Values: abstract keys of element i / j,
 // booleans. ord maps key name -> ordering of key(elem i) vs key(elem j).
-func interpretLess(fn *ssa.Function, ord map[string]int, keysSeen map[string]bool) (int, string) {
+func interpretLess(fn *ssa.Function, ord map[string]int, keysSeen map[string]bool, bind map[ssa.Value]int) (int, string) {
 	type val struct {
 		isBool bool
 		b      bool
@@ -823,6 +809,10 @@ func interpretLess(fn *ssa.Function, ord map[string]int, keysSeen map[string]boo
 	}
 	var elemOf func(v ssa.Value) int
 	elemOf = func(v ssa.Value) int {
+		// a value the caller bound to one of the two elements (comparison delegated to a helper)
+		if e, ok := bind[v]; ok {
+			return e
+		}
 		// pointer/value of the slice element indexed by the first or the second index parameter
 		switch x := v.(type) {
 		case *ssa.UnOp:
@@ -965,6 +955,29 @@ func interpretLess(fn *ssa.Function, ord map[string]int, keysSeen map[string]boo
 			case *ssa.Call:
 				if k := keyOf(x); k != nil {
 					env[x] = val{key: k}
+					continue
+				}
+				// the comparison is delegated to a same-package function of the two elements
+				if callee := x.Common().StaticCallee(); callee != nil && !x.Common().IsInvoke() && callee.Pkg == fn.Pkg && len(callee.Blocks) > 0 && len(x.Common().Args) == len(callee.Params) && len(callee.Params) >= 2 {
+					if bt, isB := x.Type().Underlying().(*types.Basic); isB && bt.Kind() == types.Bool {
+						sub := map[ssa.Value]int{}
+						okAll := true
+						for i, a := range x.Common().Args {
+							e := elemOf(a)
+							if e < 0 {
+								okAll = false
+								break
+							}
+							sub[callee.Params[i]] = e
+						}
+						if okAll {
+							r, why := interpretLess(callee, ord, keysSeen, sub)
+							if r < 0 {
+								return -1, why
+							}
+							env[x] = val{isBool: true, b: r == 1}
+						}
+					}
 				}
 			case *ssa.Convert:
 				if v, ok := env[x.X]; ok {
@@ -1024,15 +1037,8 @@ func checkOpsConcatenation(c *Ctx) {
 		return
 	}
 	pos := w.FnPos(fn)
-	var sortInstr ssa.Instruction
-	var sorted ssa.Value
-	for _, cl := range Calls(fn) {
-		if cl.Name == "sort.Slice" || cl.Name == "sort.SliceStable" {
-			sortInstr = cl.Instr
-			sorted = stripConv(cl.Args()[0])
-		}
-	}
-	if sortInstr == nil {
+	sortInstr, sorted, _, _ := findSliceSort(fn)
+	if sortInstr == nil || sorted == nil {
 		c.Violate("R1.2", "entity/dag.read:ops-after-sort", pos, "no sort found")
 		return
 	}
@@ -1170,4 +1176,59 @@ func ascendingRangeIndex(v ssa.Value) bool {
 		}
 	}
 	return false
+}
+
+// findSliceSort locates the sort of a slice in fn: a direct sort.Slice / sort.SliceStable call, or
+// a call to a same-package helper that sorts the slice it is handed (depth 1). It returns the
+// instruction in fn at which the slice gets sorted, the slice as seen in fn, and the less function.
+func findSliceSort(fn *ssa.Function) (ssa.Instruction, ssa.Value, *ssa.Function, string) {
+	lessOf := func(v ssa.Value) *ssa.Function {
+		if mc, ok := v.(*ssa.MakeClosure); ok {
+			f, _ := mc.Fn.(*ssa.Function)
+			return f
+		}
+		if f, ok := v.(*ssa.Function); ok {
+			return f
+		}
+		return nil
+	}
+	var at ssa.Instruction
+	var sorted ssa.Value
+	var less *ssa.Function
+	name := ""
+	for _, cl := range Calls(fn) {
+		if cl.Name == "sort.Slice" || cl.Name == "sort.SliceStable" {
+			a := cl.Args()
+			if len(a) == 2 {
+				at, sorted, less, name = cl.Instr, stripConv(a[0]), lessOf(a[1]), cl.Name
+			}
+			continue
+		}
+		if cl.Name == "slices.SortFunc" || cl.Name == "sort.Sort" {
+			name = cl.Name
+			at = cl.Instr
+			continue
+		}
+		// same-package helper sorting one of its parameters
+		h := cl.Fn
+		if h == nil || h.Pkg != fn.Pkg || len(h.Blocks) == 0 || h == fn {
+			continue
+		}
+		for _, hc := range Calls(h) {
+			if hc.Name != "sort.Slice" && hc.Name != "sort.SliceStable" {
+				continue
+			}
+			ha := hc.Args()
+			if len(ha) != 2 {
+				continue
+			}
+			hv := stripConv(ha[0])
+			for i, pp := range h.Params {
+				if isSameParam(hv, pp) && i < len(cl.Instr.Common().Args) {
+					at, sorted, less, name = cl.Instr, stripConv(cl.Instr.Common().Args[i]), lessOf(ha[1]), hc.Name
+				}
+			}
+		}
+	}
+	return at, sorted, less, name
 }
